@@ -21,7 +21,7 @@ LEVEL_TEXT = ("Machine-checked: every exported file walks back (RiffTree client 
               "distinct slot indices given that used_data_map numbers its keys 0,1,2,.. (C09_ids_injective_partial; get_envelope, the only writer, is proved to keep that); every index operand the converter writes fits its byte or the export is rejected (C09_index_fits_byte; D19 fixed). "
               "index_resolves / nothing_unused over the recursive writer are decided per case by the resolver oracle on the real bytes (kept as C09_full_statement).")
 LEVEL_NOTE = ("Partial: index_resolves, nothing_unused and the UsedOk hypothesis of ids_injective (an invariant carried through the mutually recursive writer) are not proved; "
-              "track_table_exact / slot_count carry the hypothesis seq <= 65536 bytes (16-bit offsets); they are checked by Spec/MdsResolve.checkFile on the real file of "
+              "track_table_exact / slot_count hold without a size hypothesis since the converter rejects stream offsets above 65535 (second fix); they are checked by Spec/MdsResolve.checkFile on the real file of "
               "every generated song (every INS/PCM/PEG/MTAB/PAT/drum-note operand of every reachable stream resolved and compared with the C11 encoding / the named track). "
               "Trusted: Lean kernel, hand-written model and spec, C11 encoder model as the reference for entry contents, g++/ASan/UBSan, harness.")
 RULE = ("songs built from items {fm, 2op, psg, pcm instrument, normal/extended pitch envelope, subroutine, shared subroutine, drum routine, macro track}: corpus (D7, D19 and the "
@@ -174,6 +174,10 @@ def corpus():
     out.append((many_subs(255, [("@m1", ["0>1:10"])], [E("PITCH_ENVELOPE", 1)]), ["idx-limit", "pitch"]))   # PEG operand 256 -> "off" before the fix
     out.append((many_subs(254, macro=1), ["idx-limit", "macro"]))                          # MTAB operand 255
     out.append((many_subs(255, macro=1), ["idx-limit", "macro"]))                          # MTAB operand 256
+    # 16-bit stream offsets: 16 channels of two-byte notes; 2100 each = 67 KiB but every stream starts below 64 KiB
+    # (accepted), 2300 each: channel P would start at 69015 (wrapped to 3479 before the fix) -> must reject
+    for n in (2100, 2300):
+        out.append(("mds | " + songgen.render({t: [E("NOTE", 10 + (i % 60), 1 + (i % 2), 0) for i in range(n)] for t in range(16)}), ["seq-64k"]))
     # instruments / envelopes / macro / drum / shared subs in one song
     items = [make_item(k, i) for i, k in enumerate(["fm", "psg", "pitch", "pitchx", "sub", "drum", "macro", "2op"])]
     g, x, s = song_from_items(items, items, "nested")
